@@ -347,10 +347,14 @@ def check(ctx):
             if rng.random() < 0.5:
                 recs = [("r%d" % i, "".join(rng.choice("ACGT") for _ in range(rng.choice([4, 6, 9])))) for i in range(rng.randint(1, 2))]
                 pstr = rng.choice([";e=0.3", ";e=0.3;o=7", ";noindels", ";o=2", ""])
-                path = os.path.join(scratch, "seq%d.fasta" % len(specs))
-                with open(path, "w") as f:
-                    for n_, s_ in recs:
-                        f.write(">%s\n%s\n" % (n_, s_))
+                prev = [sp_.split(";")[0][5:] for _, sp_ in specs if sp_.startswith("file:")]
+                if prev and rng.random() < 0.4:
+                    path = rng.choice(prev)     # the same FASTA file named by two options: every reference reads all of its records
+                else:
+                    path = os.path.join(scratch, "seq%d.fasta" % len(specs))
+                    with open(path, "w") as f:
+                        for n_, s_ in recs:
+                            f.write(">%s\n%s\n" % (n_, s_))
                 specs.append((cmd, "file:" + path + pstr))
             else:
                 a_ = rand_ast(rng, linked_ok=False)
@@ -423,6 +427,18 @@ def check(ctx):
         ctx.count(("cli", cmd, spec), True)
         if code != 2:
             ctx.violation("invalid specification does not exit with status 2", {"cmd": "-" + cmd, "spec": spec, "exit": str(code)})
+    # the option letters: -a/-g/-b and, for the second read, -A/-G/-B select 3' / 5' / anywhere
+    try:
+        parser = cli.get_argument_parser()
+        for opt, exp in (("-a", "back"), ("-g", "front"), ("-b", "anywhere"), ("-A", "back"), ("-G", "front"), ("-B", "anywhere"),
+                         ("--adapter", "back"), ("--front", "front"), ("--anywhere", "anywhere")):
+            ns = parser.parse_args([opt, "ACGT", "in.fastq"] + (["in2.fastq"] if opt.isupper() else []))
+            tags = [t_ for t_, _ in list(getattr(ns, "adapters", [])) + list(getattr(ns, "adapters2", []))]
+            ctx.count(("option", opt), True)
+            if tags != [exp]:
+                ctx.violation("option letter selects another adapter type than documented", {"option": opt, "observed": tags, "documented": [exp]})
+    except SystemExit as e:
+        ctx.violation("option letter rejected", {"exit": str(e.code)})
     ctx.coverage["rule"] = (
         "specification strings printed from random ASTs of the documented grammar (type x restriction x name x brace expansion x parameter subset with every "
         "abbreviation x spacing), linked adapters with required/optional, -a X... / ...X forms, file:/^file:/file$: with 1-3 records and file-level parameters, "
